@@ -3,10 +3,12 @@ package main
 // C14: column statistics and consensus.
 
 import (
+	"bytes"
 	"fmt"
 	"math"
 	"math/big"
 	"math/rand"
+	"os"
 	"reflect"
 	"sort"
 	"strings"
@@ -83,6 +85,23 @@ func c14(args []string) error {
 		stats[opname+":"+x.class]++
 	}
 
+	ncert := 0
+	maxcert := 40
+	if g.n > 4000 {
+		maxcert = 600
+	}
+	var certs bytes.Buffer
+	certMeta := []map[string]interface{}{}
+	certHeader := "From Coq Require Import List Bool NArith ZArith QArith Reals.\nFrom Coq.Strings Require Import Byte.\nImport ListNotations.\nFrom GA.Base Require Import Bytes.\nFrom GA.Corr Require Import C14 C14Cert.\nLocal Open Scope bs_scope.\n"
+	certFiles := 0
+	flushCerts := func() {
+		if certs.Len() == 0 {
+			return
+		}
+		os.WriteFile(fmt.Sprintf("%s_cert_%d.v", g.out, certFiles), append([]byte(certHeader), certs.Bytes()...), 0644)
+		certFiles++
+		certs.Reset()
+	}
 	for i := 0; i < g.n; i++ {
 		nseq := randLen(r, 6)
 		L := randLen(r, 9)
@@ -190,11 +209,55 @@ func c14(args []string) error {
 		case 7:
 			site := boundaryInt(r, L)
 			rg := r.Intn(2) == 0
-			x.class, _ = guarded(5e9, func() error { v, e := a.Entropy(site, rg); x.flag = math.IsNaN(v); return e })
+			if r.Intn(2) == 0 {
+				// a tall column with several kinds of characters (the sum then has many terms)
+				nseq = 8 + r.Intn(24)
+				names = distinctNames(r, nseq)
+				seqs = make([]string, nseq)
+				pool := "ACGTRYN-*."[:3+r.Intn(8)]
+				for k := range seqs {
+					seqs[k] = randSeq(r, L, func(r *rand.Rand) byte { return pool[r.Intn(len(pool))] })
+				}
+				if a, e = mkAlign(alpha, names, seqs); e != nil {
+					continue
+				}
+			}
+			var ev float64
+			agree := 1
+			x.class, _ = guarded(5e9, func() error {
+				v, e := a.Entropy(site, rg)
+				x.flag = math.IsNaN(v)
+				ev = v
+				if e == nil {
+					// repeated calls must return the same bits
+					for rep := 0; rep < 40; rep++ {
+						v2, e2 := a.Entropy(site, rg)
+						if e2 != nil || math.Float64bits(v2) != math.Float64bits(v) {
+							agree = 0
+						}
+					}
+				}
+				return e
+			})
 			if x.class != OutOk {
 				x.flag = false
+			} else {
+				x.l1 = []int{agree}
+				if !x.flag && !math.IsInf(ev, 0) {
+					n, e := floatDyadic(ev)
+					x.num, x.den = n.String(), e
+				}
 			}
 			add(alpha, names, seqs, "Entropy", fmt.Sprintf("OpEntropy %s %s", coqZ(site), coqBool(rg)), x)
+			if x.class == OutOk && !x.flag && ncert < maxcert {
+				fmt.Fprintf(&certs, "(* CERT %d *)\nDefinition case_%d : case := %s.\nLemma cert_%d : cert case_%d %s %s.\nProof. cert_tac. Qed.\n",
+					ncert, ncert, w.terms[len(w.terms)-1], ncert, ncert, realLit(ev), realLit(1e-12))
+				certMeta = append(certMeta, map[string]interface{}{"cert": ncert, "case_idx": w.n() - 1, "go_value": ev, "names": names, "seqs": seqs, "site": site, "removegaps": rg})
+				ncert++
+				if ncert%10 == 0 {
+					flushCerts()
+				}
+			}
 		case 8:
 			x.class, _ = guarded(5e9, func() error { x.num = fmt.Sprint(a.NbVariableSites()); return nil })
 			add(alpha, names, seqs, "NbVariableSites", "OpVariable", x)
@@ -398,6 +461,15 @@ func c14(args []string) error {
 		w.terms = w.terms[g.only : g.only+1]
 		w.meta = w.meta[g.only : g.only+1]
 	}
+	flushCerts()
+	var cm bytes.Buffer
+	for _, m := range certMeta {
+		b, _ := jsonMarshal(m)
+		cm.Write(b)
+		cm.WriteByte('\n')
+	}
+	os.WriteFile(g.out+"_certs.jsonl", cm.Bytes(), 0644)
+	stats["certificates"] = ncert
 	if err := w.flush(g.out, "C14", g.per); err != nil {
 		return err
 	}
